@@ -635,13 +635,17 @@ Spec == Init /\ [][Next]_vars
 
 \* ------------------------------------------------------------------ the property (C04)
 \* each concatenated array is exactly tiled by its index rows
+\* sorting the rows by start gives start_1 = 0, start_{k+1} = start_k + size_k and the sizes add up to the
+\* length: every row starts where the rows before it end (zero-size rows sit on a boundary), no two
+\* non-empty rows share a start
+RECURSIVE SumBefore(_, _)
+SumBefore(rows, st) == IF rows = <<>> THEN 0
+                       ELSE (IF Head(rows).st < st THEN Head(rows).sz ELSE 0) + SumBefore(Tail(rows), st)
 Tiled(S, l) ==
     LET rows == S.idx[l]
-        n == Len(S.cat[l])
-    IN /\ SumSz(rows) = n
-       /\ \A i \in DOMAIN rows : rows[i].st + rows[i].sz <= n
-       /\ \A i, j \in DOMAIN rows : (i # j /\ rows[i].sz > 0 /\ rows[j].sz > 0)
-              => (rows[i].st + rows[i].sz <= rows[j].st \/ rows[j].st + rows[j].sz <= rows[i].st)
+    IN /\ SumSz(rows) = Len(S.cat[l])
+       /\ \A i \in DOMAIN rows : rows[i].st = SumBefore(rows, rows[i].st)
+       /\ \A i, j \in DOMAIN rows : (i # j /\ rows[i].sz > 0 /\ rows[j].sz > 0) => rows[i].st # rows[j].st
 AllTiled == \A l \in Labels : Tiled(s, l)
 NoDuplicateOwner == \A l \in Labels : \A i, j \in DOMAIN s.idx[l] :
                         i # j => <<s.idx[l][i].ob, s.idx[l][i].da>> # <<s.idx[l][j].ob, s.idx[l][j].da>>
